@@ -30,20 +30,25 @@ type contractKey struct {
 type C13 struct {
 	BaseChecker
 	consumed map[originKey]string // -> entry point that consumed it
+	// the same, with the source name lower-cased
+	consumedFold map[originKey]foldSeen
 	bound    map[contractKey]uint64
 	nt       bool
 }
 
 func init() {
 	RegisterChecker("C13", func() Checker {
-		return &C13{consumed: map[originKey]string{}, bound: map[contractKey]uint64{}}
+		return &C13{consumed: map[originKey]string{}, consumedFold: map[originKey]foldSeen{}, bound: map[contractKey]uint64{}}
 	})
 }
 func (c *C13) ID() string { return "C13" }
 
+type foldSeen struct{ via, source string }
+
 func (c *C13) Init(w *World) {
 	for _, o := range w.Cur.OriginTxs {
 		c.consumed[originKey{o.ClassKey, o.Id, o.Source}] = "genesis"
+		c.consumedFold[originKey{o.ClassKey, o.Id, strings.ToLower(o.Source)}] = foldSeen{"genesis", o.Source}
 	}
 	for _, bc := range w.Cur.Contracts {
 		c.bound[contractKey{bc.ClassKey, bc.Contract}] = bc.BatchKey
@@ -73,7 +78,16 @@ func (c *C13) consume(w *World, k originKey, via string) bool {
 		w.Violate("R1", "origin-tx-issued-twice", "origin tx (id %q, source %q) in class key %d was already used for issuance through %s and is accepted again through %s", k.ID, k.Source, k.Class, prev, via)
 		return false
 	}
+	// The same transaction of the same chain under another letter case of the chain's name. For
+	// bridged receipts the chain itself treats chain names case-insensitively (the allow-list
+	// lookup lower-cases them), so "polygon" and "Polygon" are one source.
+	fold := originKey{k.Class, k.ID, strings.ToLower(k.Source)}
+	if p, dup := c.consumedFold[fold]; dup && p.source != k.Source && (via == "BridgeReceive" || p.via == "BridgeReceive") {
+		w.Violate("R1", "origin-tx-issued-twice/source-differs-in-letter-case-only", "origin tx id %q of source chain %q in class key %d was already used for issuance through %s under the spelling %q and is accepted again through %s", k.ID, k.Source, k.Class, p.via, p.source, via)
+		return false
+	}
 	c.consumed[k] = via
+	c.consumedFold[fold] = foldSeen{via, k.Source}
 	return true
 }
 
